@@ -7,13 +7,13 @@ ROOT = os.path.dirname(os.path.dirname(os.path.abspath(__file__)))
 CHECKS = {
     # id: (level, technique, design_ref, text, note)
     "C01": ("exploration", "deterministic simulation: seeded histories with clean restarts on a simulated FS, three-way oracle against a reference model",
-            "DESIGN.md §5 C01", "Seeded search over histories x restart points; at every restart the state before the drop, the state after open and the reference model must agree. Evidence, not proof.",
+            "DESIGN.md §5 C01", "Seeded search over histories x restart points; at every restart the state after open must equal the state the log showed before the drop (the driver does not stop where a live call departs from the reference model - that is C05's finding - it re-bases the model on what the log shows). Evidence, not proof.",
             "SimFs models the kernel file system; 4-block WAL files (cfg(test) value); payload digests compared (64-bit hash of bytes)."),
     "C05": ("exploration", "deterministic simulation: lock-step refinement check against a sequential reference model after every call",
             "DESIGN.md §5 C05", "Every call's outcome and the full observable state are compared with an executable sequential model, plus PRNG range-bound probes; no fault involved (fault-free configuration of the simulator).",
             "Reference model is the specification oracle; SimFs/deterministic hasher as above."),
     "C06": ("exploration", "deterministic simulation: directory-listing invariant checked from the SimFs effect trace after every truncate/delete/open",
-            "DESIGN.md §5 C06", "Roll-over heavy seeded histories; the SimFs listing and disk_used_bytes are compared with a bound derived independently from the write cursor and the model's retained records; every third history is also crashed at sampled points and the same upper bound is required of the recovered log (replay attribution computed by an independent WAL parser).",
+            "DESIGN.md §5 C06", "Roll-over heavy seeded histories; the SimFs listing and disk_used_bytes are compared with a bound derived independently from the write cursor and the model's retained records; every third history is also crashed at sampled points and the same upper bound is required of the recovered log (replay attribution computed by an independent WAL parser); one run in eight has a directory/symlink squatting the name of a next WAL file (failed roll-over, calls go on), and a 'long pin' scenario releases 17-22 files in one call.",
             "Verdict on fault-free histories only; attribution of a record = file holding the write cursor when its append began."),
     "C15": ("exploration", "deterministic simulation: wal_bytes_written compared with Write effects recorded by the simulated FS",
             "DESIGN.md §5 C15", "Per call (Always policies) or per flush point (others) the reported byte counts must equal the bytes that reached WAL files, and the running sum must sit on the FS write cursor.",
@@ -40,8 +40,8 @@ CHECKS = {
             "DESIGN.md §5 C08", "Seeded histories x 1-4 aimed or uniform in-place overwrites of the cleanly dropped image; every recovered record must be one that was appended to that queue, positions strictly increasing.",
             "Up to a CRC-32 collision; membership judged on (position, 64-bit payload digest, length). Known findings K1/K2 (payloads that embed a CRC-valid frame, reached through the unchecksummed length field or a stale tail) are reported as KNOWN-FINDING lines, any other route to an embedded frame as a VIOLATION."),
     "C09": ("exploration", "deterministic simulation with storage-damage injection: single-frame payload/CRC damage, frames enumerated per image",
-            "DESIGN.md §5 C09", "Per seeded image, frames found by the independent parser are damaged one at a time (all frames x 6 variants in the thorough tier); open must succeed and every retained record whose append was not hit must be intact.",
-            "Frame layout from the independent parser; extra records / missing record-less queues are not violations."),
+            "DESIGN.md §5 C09", "Per seeded image, frames found by the independent parser are damaged one at a time (all frames x 6 variants in the thorough tier); open must succeed and every retained record whose append was not hit must be intact and readable through the bounded range forms; un-hit delete/truncate entries must still take effect (nothing deleted or truncated comes back unless the hit entry is that control entry).",
+            "Frame layout from the independent parser; extra records are violations unless the hit entry is a truncate/delete/position entry of that queue."),
     "C10": ("exploration", "deterministic simulation with storage-damage injection: structural damage, PRNG and forged images; panic, step-budget, watchdog and heap oracles",
             "DESIGN.md §5 C10", "Three generator classes (damaged valid images, PRNG bytes / shuffled valid frames, CRC-valid adversarial entries); open must not panic, exceed the fs step budget or a 20 s watchdog, or allocate more than 16 x image + 1 MiB; accessors of an Ok log must not panic.",
             "simctl is built with overflow checks and debug assertions: arithmetic overflow counts as a panic."),
@@ -55,7 +55,7 @@ CHECKS = {
             "DESIGN.md §5 C13", "Rejected / no-op calls of 7 shapes are inserted into seeded histories; each must perform no mutating FS effect and report 0 bytes; aligned calls of both runs must produce identical outcomes, states and write effects, and byte-identical final images.",
             "Read-only / sync effects during a rejected call are tolerated."),
     "C14": ("exploration", "deterministic simulation: one history executed under five persist policies with a simulated clock, call-by-call comparison",
-            "DESIGN.md §5 C14", "Same explicit call sequence (with clock ticks and explicit persists) under DoNothing, OnDelay (4 intervals x 2 actions), Always(Flush), Always(FlushAndFsync); executions must agree on every outcome and observable state.",
+            "DESIGN.md §5 C14", "Same explicit call sequence (with clock ticks and explicit persists) under DoNothing, OnDelay (4 intervals x 2 actions), Always(Flush), Always(FlushAndFsync); executions must agree on every outcome (errors included) and observable state; one run in six has a directory/symlink squatting the name of a next WAL file, so that a roll-over fails under every policy alike and the calls go on.",
             "Simulated Instant behind the H4 hook; wal_bytes_written / image equality are statistics only."),
     "C18": ("exploration", "deterministic simulation: metamorphic projection (history vs history restricted to one queue) on separate simulated disks, live and after injected crashes",
             "DESIGN.md §5 C18", "For every queue of every seeded history the projection runs on a fresh simulated disk; outcomes and the queue's observable content must agree at corresponding points; crash variant recovers from crashes inside calls addressed to other queues and keeps using the queue on the recovered log and on the never-crashed projection.",
